@@ -236,56 +236,62 @@ def dropBody (c : Conn) : Option BodyVal → Conn
   | some (.file id _) => dropFile c id
   | _ => c
 
+/-- The first handler call for a request whose body is still pending (`legacyTwice = true`: the
+    pinned tree ignored a normal first answer and fell through to a second call). -/
+def firstCall (legacyTwice : Bool) (cfg : Cfg) (handler : ReqView → HandlerOut) (c : Conn) (m : ReqMeta) :
+    Conn × Except HttpError (Option BodyVal × Option Response) × List Call :=
+  let view : ReqView := ⟨m, none⟩
+  let out := handler view
+  let call : Call := ⟨view, out⟩
+  match (asResponse out).kind with
+  | .normal => if legacyTwice then (c, .ok (none, none), [call]) else (c, .ok (none, some (asResponse out)), [call])
+  | .dropConnection => (c, .error .disconnected, [call])
+  | .getBodyAndReprocess maxLen =>
+    if !cfg.cacheDir then (c, .error .cacheDirNotConfigured, [call]) else
+    match readBodyToFile c maxLen cfg.fs with
+    | (c, .ok b) => (c, .ok (some b, none), [call])
+    | (c, .error e) => (c, .error e, [call])
+
+/-- The body stage of `handle_http_conn_once`: small declared bodies are read into memory without
+    asking; larger or undeclared-length bodies lead to a first handler call with the body pending.
+    Result: the body the (next) handler call will see, or an early response. -/
+def bodyStage (legacyTwice : Bool) (cfg : Cfg) (handler : ReqView → HandlerOut) (c : Conn) (m : ReqMeta) :
+    Conn × Except HttpError (Option BodyVal × Option Response) × List Call :=
+  match m.body with
+  | .empty => (c, .ok (some (.vec []), none), [])
+  | .pendingKnown n =>
+    if n ≤ cfg.smallBodyLen then
+      match readBodyToVec c with
+      | (c, .ok b) => (c, .ok (some b, none), [])
+      | (c, .error e) => (c, .error e, [])
+    else firstCall legacyTwice cfg handler c m
+  | .pendingUnknown => firstCall legacyTwice cfg handler c m
+
+/-- Sending the final answer of an exchange. -/
+def finish (c : Conn) (body : Option BodyVal) (resp : Response) (calls : List Call) :
+    Conn × Except HttpError Unit × List Call :=
+  match resp.kind with
+  | .dropConnection => (dropBody c body, .error .disconnected, calls)
+  | .getBodyAndReprocess _ => (dropBody c body, .error .alreadyGotBody, calls)
+  | .normal =>
+    let w := writeResponse c resp
+    let c := dropBody w.1 body
+    if resp.code / 100 == 4 || resp.code / 100 == 5 then (c, .error .disconnected, calls) else (c, w.2, calls)
+
 /-- `handle_http_conn_once` (repaired code: a pending-body request that the handler answers
-    directly is answered with that response; `legacyTwice = true` is the pinned tree, which fell
-    through and called the handler a second time). -/
+    directly is answered with that response). -/
 def handleOnce (legacyTwice : Bool) (u : Bytes → Option Url) (cfg : Cfg) (handler : ReqView → HandlerOut)
     (c : Conn) : Conn × Except HttpError Unit × List Call :=
   match readRequest u c with
   | (c, .error e) => (c, .error e, [])
   | (c, .ok m) =>
-    -- body stage
-    let stage : Conn × Except HttpError (Option BodyVal × Option Response) × List Call :=
-      match m.body with
-      | .empty => (c, .ok (some (.vec []), none), [])
-      | .pendingKnown n =>
-        if n ≤ cfg.smallBodyLen then
-          match readBodyToVec c with
-          | (c, .ok b) => (c, .ok (some b, none), [])
-          | (c, .error e) => (c, .error e, [])
-        else firstCall c m
-      | .pendingUnknown => firstCall c m
-    match stage with
+    match bodyStage legacyTwice cfg handler c m with
     | (c, .error e, calls) => (c, .error e, calls)
-    | (c, .ok (body, early), calls) =>
-      let finish (c : Conn) (resp : Response) (calls : List Call) : Conn × Except HttpError Unit × List Call :=
-        match resp.kind with
-        | .dropConnection => (dropBody c body, .error .disconnected, calls)
-        | .getBodyAndReprocess _ => (dropBody c body, .error .alreadyGotBody, calls)
-        | .normal =>
-          let (c, res) := writeResponse c resp
-          let c := dropBody c body
-          if resp.code / 100 == 4 || resp.code / 100 == 5 then (c, .error .disconnected, calls) else (c, res, calls)
-      match early with
-      | some resp => finish c resp calls
-      | none =>
-        let view : ReqView := ⟨m, body⟩
-        let out := handler view
-        finish c (asResponse out) (calls ++ [⟨view, out⟩])
-where
-  /-- The first handler call for a request whose body is still pending. -/
-  firstCall (c : Conn) (m : ReqMeta) : Conn × Except HttpError (Option BodyVal × Option Response) × List Call :=
-    let view : ReqView := ⟨m, none⟩
-    let out := handler view
-    let call : Call := ⟨view, out⟩
-    match (asResponse out).kind with
-    | .normal => if legacyTwice then (c, .ok (none, none), [call]) else (c, .ok (none, some (asResponse out)), [call])
-    | .dropConnection => (c, .error .disconnected, [call])
-    | .getBodyAndReprocess maxLen =>
-      if !cfg.cacheDir then (c, .error .cacheDirNotConfigured, [call]) else
-      match readBodyToFile c maxLen cfg.fs with
-      | (c, .ok b) => (c, .ok (some b, none), [call])
-      | (c, .error e) => (c, .error e, [call])
+    | (c, .ok (body, some resp), calls) => finish c body resp calls
+    | (c, .ok (body, none), calls) =>
+      let view : ReqView := ⟨m, body⟩
+      let out := handler view
+      finish c body (asResponse out) (calls ++ [⟨view, out⟩])
 
 /-- `handle_http_conn`: loop until an error; on an error other than `Disconnected` try to send the
     error's response and shut the write side down. -/
